@@ -186,6 +186,8 @@ ATTR_SETS = {
     "raw-noecho-vmin0-vtime5": (False, False, 0, 5),
     "raw-noecho-vmin3-vtime2": (False, False, 3, 2),
     "canon-echo-vmin0": (True, True, 0, 0),
+    "raw-noecho-vmin0-vtime0": (False, False, 0, 0),     # exactly read_tty(echo=False)'s own working mode
+    "raw-echo-vmin0-vtime0": (False, True, 0, 0),        # exactly read_tty(echo=True)'s own working mode
 }
 
 
